@@ -22,15 +22,37 @@ Fixpoint argmax_first (l : list nat) : nat :=       (* np.argmax: first index of
               match t with [] => 0%nat | _ => if Nat.leb (nth k t 0%nat) x then 0%nat else S k end
   end.
 
+(* number of rows of P that are no farther than row t *)
+Definition nle (d : nat -> Q) (P : list nat) (t : nat) : nat := length (filter (fun r => Qle_bool (d r) (d t)) P).
+(* the K nearest rows of P: those having at most K rows of P no farther than themselves (with pairwise distinct
+   distances these are exactly K rows as soon as P has K rows) *)
+Definition nearest (K : nat) (d : nat -> Q) (P : list nat) : list nat := filter (fun r => Nat.leb (nle d P r) K) P.
+Definition present_rows (rows : list (list nat)) (m : list bool) : list nat :=
+  filter (fun r => row_present (nth r rows []) m) (seq 0 (length rows)).
+
 Definition knn_point (K C : nat) (rows : list (list nat)) (labels : list nat) (dist : list Q) (ucol : list Q) (null : Q)
            (m : list bool) : Q :=
-  let present := filter (fun r => row_present (nth r rows []) m) (seq 0 (length rows)) in
+  let present := present_rows rows m in
   if Nat.ltb (length present) K then null
-  else let nearest := firstn K (sort_rows (fun r => nth r dist 0) present) in
-       let tallyv := vsum C (map (fun r => onehot C (nth r labels 0%nat)) nearest) in
+  else let tallyv := vsum C (map (fun r => onehot C (nth r labels 0%nat)) (nearest K (fun r => nth r dist 0) present)) in
+       nth (argmax_first tallyv) ucol 0.
+
+(* the same game written with an explicit sort (insertion sort by distance): evaluated next to the definition above
+   on every correspondence case *)
+Definition knn_point_sorted (K C : nat) (rows : list (list nat)) (labels : list nat) (dist : list Q) (ucol : list Q) (null : Q)
+           (m : list bool) : Q :=
+  let present := present_rows rows m in
+  if Nat.ltb (length present) K then null
+  else let near := firstn K (sort_rows (fun r => nth r dist 0) present) in
+       let tallyv := vsum C (map (fun r => onehot C (nth r labels 0%nat)) near) in
        nth (argmax_first tallyv) ucol 0.
 
 Definition v_knn (K C : nat) (rows : list (list nat)) (labels : list nat) (dists ucols : list (list Q)) (nulls : list Q)
            (m : list bool) : Q :=
   sumQ (fun t : list Q * list Q * Q => knn_point K C rows labels (fst (fst t)) (snd (fst t)) (snd t) m)
+       (combine (combine dists ucols) nulls) / qn (length nulls).
+
+Definition v_knn_sorted (K C : nat) (rows : list (list nat)) (labels : list nat) (dists ucols : list (list Q)) (nulls : list Q)
+           (m : list bool) : Q :=
+  sumQ (fun t : list Q * list Q * Q => knn_point_sorted K C rows labels (fst (fst t)) (snd (fst t)) (snd t) m)
        (combine (combine dists ucols) nulls) / qn (length nulls).
